@@ -75,7 +75,7 @@ impl Monitor for NoEffectMonitor {
                     None
                 }
             }
-            Step::HSetLen { slot, n } if *n >= engine::UNREPRESENTABLE_LEN => {
+            Step::HSetLen { slot, n } if engine::unrepresentable_len(sess.version, *n) => {
                 // refused with InvalidInput ("no compound file can hold that"): like any
                 // other refusal it must leave the store and the handle alone - also the
                 // handle's unwritten changes
@@ -442,6 +442,20 @@ fn cycle_steps(template: u64, p: &CycleParams) -> Vec<Step> {
             v.push(Step::HClose { slot: s });
             v.push(Step::Api(Op::RemoveStream("/x".into())));
         }
+        12 => {
+            // so many small streams that the MiniFAT needs a second sector (and a third),
+            // all removed again
+            let names: Vec<String> = (0..p.many).map(|k| format!("/w{k:02}")).collect();
+            for (k, n) in names.iter().enumerate() {
+                v.push(Step::HOpen { slot: s, path: n.clone(), how: OpenHow::CreateNew });
+                v.push(Step::HWriteTag { slot: s, len: 3000 + ((p.size as usize + 411 * k) % 1090), tag: 40 + k as u64 });
+                v.push(Step::HClose { slot: s });
+            }
+            let order: Vec<&String> = if p.reverse { names.iter().rev().collect() } else { names.iter().collect() };
+            for n in order {
+                v.push(Step::Api(Op::RemoveStream(n.clone())));
+            }
+        }
         _ => {
             // empty storage created and removed; metadata set and reset
             v.push(Step::Api(Op::CreateStorage("/tmpst".into())));
@@ -462,6 +476,8 @@ fn mini_state(bytes: &[u8]) -> Option<(u64, Vec<u32>)> {
 }
 
 struct CycleParams {
+    /// template 12: how many small streams it takes to need a second MiniFAT sector
+    many: usize,
     size: u64,
     keep_len: u64,
     delta: u64,
@@ -511,22 +527,23 @@ fn c15_case(ctx: &Ctx, rep: &mut Report, rng: &mut Rng, version: Version, done: 
     run_step(&mut sess, Step::HOpen { slot: 6, path: "/keep".into(), how: OpenHow::Create }, done, rep)?;
     run_step(&mut sess, Step::HWriteTag { slot: 6, len: keep_len as usize, tag: 3 }, done, rep)?;
     run_step(&mut sess, Step::HClose { slot: 6 }, done, rep)?;
-    let mut template = rng.below(12);
+    let mut template = rng.below(13);
     if mega {
         template = *rng.pick(&[0u64, 2, 2, 3, 5, 0]);
     }
-    let mut params = CycleParams { size: *rng.pick(&[1u64, 60, 64, 100, 500, 1000, 4000, 4095, 4096, 5000, 10000, 70000]), keep_len, delta: *rng.pick(&[1u64, 63, 64, 500, 4000, 4096, 6000]), reverse: rng.chance(1, 2) };
+    let many = if version == Version::V3 { 3 + rng.usize_below(6) } else { 17 + rng.usize_below(20) };
+    let mut params = CycleParams { many, size: *rng.pick(&[1u64, 60, 64, 100, 500, 1000, 4000, 4095, 4096, 5000, 10000, 70000]), keep_len, delta: *rng.pick(&[1u64, 63, 64, 500, 4000, 4096, 6000]), reverse: rng.chance(1, 2) };
     if mega {
         params.size = *rng.pick(&[2_200_000u64, 2_500_000, 3_145_728, 5_000_000]);
         params.delta = *rng.pick(&[1_048_576u64, 1_100_000, 2_621_440, 1_500_000]);
         rep.count("cycles_megabyte_sized");
     }
     let reps = rng.range(5, 10);
-    let container = if params.size < 4096 { "mini" } else { "regular" };
+    let container = if params.size < 4096 || template == 12 { "mini" } else { "regular" };
     let before = sess.model.dump();
     let mut lens: Vec<usize> = Vec::new();
     let mut frees: Vec<(usize, usize, u64)> = Vec::new();
-    let reopen_in_cycle = rng.chance(1, 4);
+    let reopen_in_cycle = rng.chance(1, 4) || (template == 12 && rng.chance(1, 2));
     if reopen_in_cycle {
         rep.count("cycles_with_reopen");
     }
@@ -588,7 +605,10 @@ fn c15_case(ctx: &Ctx, rep: &mut Report, rng: &mut Rng, version: Version, done: 
         if reopen_in_cycle {
             // closing and reopening the file is part of many real cycles; it does not change
             // the logical state
-            run_step(&mut sess, Step::Reopen(if r % 2 == 0 { Mode::Permissive } else { Mode::Strict }), done, rep)?;
+            // (template 12 always reopens leniently: a header count that has fallen behind its
+            // chain is for C02 / C03 to report; what is measured here is the growth that goes
+            // with it, and a refused strict reopen would end the measurement)
+            run_step(&mut sess, Step::Reopen(if r % 2 == 0 || template == 12 { Mode::Permissive } else { Mode::Strict }), done, rep)?;
         }
         // the cycle must be net-zero on the logical state, else the case is a harness error
         let after = sess.model.dump();
